@@ -46,3 +46,4 @@ def rules(ctx):
     S.oldest_search_rules(ctx)
     S.snapshot_atomic_rules(ctx)
     S.round4_residue_rules(ctx)
+    S.survey3_rules(ctx)
